@@ -115,6 +115,17 @@ Definition step_old (s:st) (o:op) : st :=
   end.
 Definition run_old (h:list op) (s:st) : st := fold_left step_old h s.
 
+(* the thread-safe customize entry (SZ_compress_customize_threadsafe, "SZ") called with bounds of its own in its parameter block:
+   it runs the kernels' write phase like an explicit call but returns without putting the configured mode, bound and ratios back
+   (listed finding threadsafe_leaves_bounds; not an operation of `op`, whose theorem is about the entries that do) *)
+Definition step_ts (s:st) (m a r p:Z) (d:datum) (chosen:Z) : st :=
+  let s' := write_phase s (Explicit m a r p) d in
+  let e' := if optq (ex s') =? 1 then {| optq := 1; x_cap := chosen; x_rad := chosen / 2; szt := 8 |} else ex s' in
+  let c := cfg s in
+  {| cfg := {| c_endian := c_endian c; c_qi := c_qi c; c_mrr := c_mrr c; c_reg := c_reg c; c_mode := m; c_abs := a; c_rel := r; c_pwr := p; c_rest := c_rest c |};
+     ex := e'; scratch := scratch s'; endian := endian s';
+     store := store s' ++ [{| s_endian := endian s'; s_optq := optq e'; s_intervals := x_cap e'; s_szt := 8; s_isint := d_isint d |}] |}.
+
 (* ---- source facts the effect table rests on (T2) ---- *)
 Local Open Scope string_scope.
 Definition per_call_fields : list string :=
